@@ -985,6 +985,20 @@ func c03Crash(c *Ctx, idx int) CaseResult {
 			if bst == spec.NotStarted {
 				continue
 			}
+			// a sequence counts as failed exactly when one of its actions failed: a Completed sequence around a Failed
+			// action is a failure that was never counted against the tolerance
+			for si := range b.Seqs {
+				sa := fmt.Sprintf("%s.S%d", ba, si)
+				if fp.Status(sa) != spec.Completed {
+					continue
+				}
+				for ai := range b.Seqs[si].Actions {
+					if st := fp.Status(b.Seqs[si].Actions[ai].Tag); st != spec.Completed {
+						add("seq-status", "completed-with-"+stName(st)+"-action", "after recovery from crash point %d sequence %s is Completed but its action %s is %s", k, sa, b.Seqs[si].Actions[ai].Tag, stName(st))
+						break
+					}
+				}
+			}
 			T, C := b.Tol, b.EffConc()
 			if T >= 0 && F > T+C {
 				add("too-many-failures", "", "block %d: %d sequences failed, tolerance %d concurrency %d (crash point %d)", bi, F, T, C, k)
@@ -1662,4 +1676,71 @@ func cmp(a, b int) string {
 		return ">"
 	}
 	return "="
+}
+
+// ---------- C08 under recovery: no visible regress in the process that resumes a plan ----------
+
+// c08Crash explores every crash point of a plan and applies "a block, sequence or sequence action that was read as
+// Completed or Failed is never later read in another status" to the process that resumes it: a reader polling from
+// the moment that process comes up first reads the durable state at the crash and then whatever the process writes,
+// so every write of a finished block / sequence / sequence action with another status is a visible regress.
+func c08Crash(c *Ctx, idx int) CaseResult {
+	res := CaseResult{Counters: map[string]int{}}
+	r := gen.Rand(c.Seed, "C08crash", idx)
+	g := gen.Base()
+	g.MaxBlocks, g.MaxSeqs, g.MaxActions = 2, 4, 2
+	g.MaxRetries, g.PTransient = 1, 0.2
+	g.PFailCont = 0
+	g.PCont, g.PBCont = 0.15, 0.15
+	g.SleepUS = [2]int{0, 1500}
+	g.TailP = 0
+	g.ContSleepUS = [2]int{0, 500}
+	g.NoBlockDelays = true
+	g.PFailSeqAction = 0.15
+	g.Tols = []int{-1, 1, 2}
+	g.Concs = []int{1, 2, 3}
+	ps := g.Plan(r, "p0")
+	var first any
+	cp := exploreCrashes(&ps, r, 1<<30, &res, func(sk *spec.PlanView, rec *crash.Recovery, t *oracle.Trace, second bool, k, j int) {
+		if rec == nil || !rec.Returned {
+			return
+		}
+		res.Counters["recoveries"]++
+		byID := map[string]*spec.ObjView{}
+		seen := map[string]int{}
+		for i := range sk.Objs {
+			o := &sk.Objs[i]
+			byID[o.ID] = o
+			if isTerminal(o.Status) {
+				seen[o.ID] = o.Status
+			}
+		}
+		for _, w := range t.Writes {
+			o := byID[w.ObjID]
+			if o == nil || o.Kind == "checks" || o.Kind == "plan" || (o.Kind == "action" && !strings.Contains(o.Addr, ".S")) {
+				continue
+			}
+			if st, was := seen[w.ObjID]; was && w.Status != st {
+				res.Viols = append(res.Viols, ev.V("C08", "recovered/regress", o.Kind+","+stName(st)+"->"+stName(w.Status), "%s %s could be read as %s when the resuming process came up (crash point %d) and was then written as %s", o.Kind, o.Addr, stName(st), k, stName(w.Status)))
+				if first == nil {
+					first = map[string]any{"k": k, "durable_state": describeSk(sk), "recovery_events": rec.Events}
+				}
+				break
+			}
+			if isTerminal(w.Status) {
+				seen[w.ObjID] = w.Status
+			}
+		}
+	})
+	if cp != nil {
+		res.Nontriv = hashStr(fmt.Sprint("crash", ps))
+		res.ISig = res.Nontriv
+		if idx%100 == 29 {
+			res.Sample = map[string]any{"mode": "no visible regress in the process that resumes the plan, every crash point", "plan": ps, "writes": cp.NW}
+		}
+	}
+	if len(res.Viols) > 0 {
+		res.Witness = map[string]any{"plan": ps, "first": first}
+	}
+	return res
 }
